@@ -208,10 +208,29 @@ func (c *config) WriteFrontendMaps() error {
 			fmaps.DefaultHostMap.AddHostnamePathMapping(hatypes.DefaultHost, path, path.Backend.ID)
 		}
 	}
+	// A server alias is answered by a single host, otherwise the entries of two
+	// hosts end up in the maps with the very same key and the one that answers
+	// is undefined. A declared hostname has precedence over an alias with the
+	// same name, and an alias requested by more than one host belongs to the
+	// first of them, in the order of their hostnames.
+	usedAliasName := map[string]bool{}
+	usedAliasRegex := map[string]bool{}
 	for _, host := range c.hosts.BuildSortedItems() {
+		hostAlias := host.Alias
+		if name := strings.ToLower(hostAlias.AliasName); name != "" {
+			if usedAliasName[name] || c.hosts.FindHost(name) != nil {
+				hostAlias.AliasName = ""
+			}
+			usedAliasName[name] = true
+		}
+		if regex := hostAlias.AliasRegex; regex != "" {
+			if usedAliasRegex[regex] {
+				hostAlias.AliasRegex = ""
+			}
+			usedAliasRegex[regex] = true
+		}
 		for _, path := range host.Paths {
 			backendID := path.Backend.ID
-			// IMPLEMENT check if host.Alias.AliasName was already used as a hostname
 			if backendID != "" {
 				if host.SSLPassthrough() {
 					// no ssl offload, cannot inspect incoming path, so tracking root only
@@ -228,13 +247,13 @@ func (c *config) WriteFrontendMaps() error {
 				} else if host.HasTLS() {
 					// ssl offload in place
 					fmaps.HTTPSHostMap.AddHostnamePathMapping(host.Hostname, path, backendID)
-					fmaps.HTTPSHostMap.AddAliasPathMapping(host.Alias, path, backendID)
+					fmaps.HTTPSHostMap.AddAliasPathMapping(hostAlias, path, backendID)
 				}
 				fmaps.HTTPHostMap.AddHostnamePathMapping(host.Hostname, path, backendID)
-				fmaps.HTTPHostMap.AddAliasPathMapping(host.Alias, path, backendID)
+				fmaps.HTTPHostMap.AddAliasPathMapping(hostAlias, path, backendID)
 			} else if path.RedirTo != "" {
 				fmaps.RedirToMap.AddHostnamePathMapping(host.Hostname, path, path.RedirTo)
-				fmaps.RedirToMap.AddAliasPathMapping(host.Alias, path, path.RedirTo)
+				fmaps.RedirToMap.AddAliasPathMapping(hostAlias, path, path.RedirTo)
 			}
 			if hasVarNamespace {
 				// add "-" on missing paths to avoid overlap
